@@ -18,8 +18,8 @@ RULE = ("each case: k<=3, N<=5, 1-4 segments (max segment size smaller than the 
         "pre-existing good share's data is unchanged, and after deleting old shares down to max(0, k - new) the original read cap reads exactly the plaintext. "
         "Non-trivial = at least one damaged share and |G| within 1 of k or of N; distinct by whole case.")
 LEVEL_TEXT = "Fault-plan search over the share format with an independent good-share model; repair is validated by reading through the original read cap."
-ASSUMPTIONS = ["servers are honest and answer (server faults are C03)", "a share whose container header is cut short makes its server error out and is not generated here (see C03)"]
-REQUIRED_CLASSES = ["verify", "no-verify", "healthy", "unhealthy-recoverable", "unrecoverable", "repair-ok", "corrupt-detected", "multi-segment", "unused-field-damage", "read-from-new-shares-alone"]
+ASSUMPTIONS = ["servers store honestly; one server may fail reads or drop the connection during the check", "a share whose container header is cut short makes its server error out and is not generated here (see C03)"]
+REQUIRED_CLASSES = ["server-fault-during-check", "verify", "no-verify", "healthy", "unhealthy-recoverable", "unrecoverable", "repair-ok", "corrupt-detected", "multi-segment", "unused-field-damage", "read-from-new-shares-alone"]
 BUDGET = {"quick": 900, "thorough": 7200}
 DAMAGE = ["delete", "delete", "flip-all-blocks", "bad-share-version", "flip-data-byte", "flip-block-hash", "flip-share-hash", "flip-ueb", "flip-cthash", "trunc-mid-data", "trunc-end-1", "flip-unused"]
 UNUSED = {"flip-unused"}
@@ -39,7 +39,10 @@ def cases(draw):
     size = max(56, seg * nseg - draw(st.integers(0, min(seg, 50) - 1))) if seg < 4096 else draw(st.integers(56, 400) | st.integers(2000, 9000))
     servers = n + draw(st.integers(0, 2))
     damage = draw(st.lists(st.tuples(st.integers(0, 8), st.integers(0, 5), st.sampled_from(DAMAGE), st.integers(0, 5000)).map(list), max_size=n))
-    return {"k": k, "n": n, "seg": seg, "size": size, "servers": servers, "place": [[i, i] for i in range(n)], "damage": damage, "faults": [],
+    # a server may answer the share query and then fail every later read (its shares can then not be verified), or fail from the j-th read on / drop the connection
+    faults = draw(st.lists(st.tuples(st.integers(0, n - 1), st.sampled_from(["fail-reads-from", "fail-reads-from", "disconnect-after"]), st.sampled_from([0, 0, 1, 3, 8])).map(list), max_size=1)) \
+        if draw(st.integers(0, 3)) == 0 else []
+    return {"k": k, "n": n, "seg": seg, "size": size, "servers": servers, "place": [[i, i] for i in range(n)], "damage": damage, "faults": faults,
             "verify": draw(st.booleans()), "sched": draw(st.lists(st.integers(0, 9), max_size=30))}
 
 
@@ -61,6 +64,16 @@ def run_case(case, ctx):
             classes.add("unused-field-damage")
         good_lo = (present - used_damage - unused_damage) if verify else present       # certainly good
         good_hi = (present - used_damage) if verify else present                        # possibly good
+        # shares on a server that fails reads: with verify they cannot count as good when every read fails; when the failure starts later they may or may not
+        flaky = {sh for (s_, sh) in sc.placed if s_ in sc.faulty}
+        dead_reads = {sh for (s_, sh) in sc.placed if sc.faulty.get(s_) == "fail-reads-from" and any(f[0] % len(g.servers) == s_ and f[2] == 0 for f in case["faults"])}
+        if sc.faulty:
+            classes.add("server-fault-during-check")
+            if verify:
+                good_lo = good_lo - flaky
+                good_hi = good_hi - dead_reads
+            else:
+                good_lo = good_lo - {sh for (s_, sh) in sc.placed if sc.faulty.get(s_) == "disconnect-after"}
         desc = "k=%d N=%d seg=%d size=%d servers=%d damage=%r verify=%r" % (k, n, case["seg"], case["size"], case["servers"], sorted(sc.damaged.items()), verify)
         if case["size"] > case["seg"]:
             classes.add("multi-segment")
@@ -85,7 +98,7 @@ def run_case(case, ctx):
             classes.add("healthy" if G == n else ("unhealthy-recoverable" if G >= k else "unrecoverable"))
         if verify:
             reported = {sh for (srv, si_, sh) in cr.get_corrupt_shares()} | {sh for (srv, si_, sh) in cr.get_incompatible_shares()}   # 'not good', whatever the label
-            ctx.check(used_damage & present <= reported <= (used_damage | unused_damage) & present, "wrong-corrupt-set", "%s: verify reports corrupt shares %r; damaged in a used field: %r (unused-region damage: %r)" % (
+            ctx.check((used_damage & present) - flaky <= reported <= ((used_damage | unused_damage) & present) | flaky, "wrong-corrupt-set", "%s: verify reports corrupt shares %r; damaged in a used field: %r (unused-region damage: %r)" % (
                 desc, sorted(reported), sorted(used_damage & present), sorted(unused_damage)), missing=sorted((used_damage & present) - reported), extra=sorted(reported - (used_damage | unused_damage)))
             if used_damage & present:
                 classes.add("corrupt-detected")
@@ -96,7 +109,7 @@ def run_case(case, ctx):
         g.sched.settle()
         if r[0] == "hang":
             ctx.fail("hang", "%s: check_and_repair never completed" % desc)
-        if r[0] == "ok" and r[1].get_repair_attempted() and r[1].get_repair_successful():
+        if r[0] == "ok" and r[1].get_repair_attempted() and r[1].get_repair_successful() and not sc.faulty:
             classes.add("repair-ok")
             after = {}
             for s in g.servers:
